@@ -649,3 +649,17 @@ Proof.
   intros Hc fuel g tbl dss n_signal n out g' Hn H.
   exact (generate_count rng choice post Hc tbl (map c_wn tbl) eq_refl fuel g dss n_signal n out g' Hn H).
 Qed.
+
+Theorem generate_per_dataset_thm (rng : Type) (choice : rng -> list Z -> nat -> list nat * rng)
+  (post : Z -> Z -> Z -> Z -> list Z) :
+  choice_contract choice ->
+  forall fuel g tbl dss n_signal n out g',
+  generate rng choice post fuel g tbl dss n_signal = Ok (n, out, g') ->
+  exists meta,
+    lookup tbl (fst (choice g (map c_wn tbl) (Z.to_nat n_signal))) = Ok meta
+    /\ map fst out = zuniq (map c_ds meta)
+    /\ (forall ds evs, In (ds, evs) out -> zlen evs = zlen (filter (fun c => c_ds c =? ds) meta)).
+Proof.
+  intros Hc fuel g tbl dss n_signal n out g' H.
+  exact (generate_per_dataset rng choice post Hc tbl (map c_wn tbl) eq_refl fuel g dss n_signal n out g' H).
+Qed.
